@@ -83,6 +83,8 @@ def pack_standard(evs):
     last_ckpt_digest = None
     last_ckpt_mid = False
     last_ckpt_sched = None
+    last_ckpt_pool = None
+    last_resume_latest = False
     last_done = None
     for e in evs:
         ev = e["ev"]
@@ -188,6 +190,7 @@ def pack_standard(evs):
                 last_ckpt_digest = e["digest"]
                 last_ckpt_mid = bool(e.get("mid", False))
                 last_ckpt_sched = e.get("sched")
+                last_ckpt_pool = (e.get("pool_eff"), bool(e.get("pool_stale", False)))
                 base["sched_ok"] = True
                 base["digest_ok"] = True
                 base["digest_diff"] = ""
@@ -205,6 +208,7 @@ def pack_standard(evs):
                 base["from_mid_ckpt"] = bool(last_ckpt_mid)
                 # the restored schedule is the pickled one (only judged when the latest file was restored)
                 base["sched_ok"] = bool(not base["digest_ok"] or e.get("sched") == last_ckpt_sched)
+                last_resume_latest = bool(base["digest_ok"])
         elif ev in ("done", "done_again"):
             facts = ["ascending", "count_ok", "logZ_ok", "logZ_err_ok", "weights_ok", "vols_ok",
                      "logL_model_ok", "logP_model_ok", "in_bounds_ok", "birth_ok", "dict_ok",
@@ -242,6 +246,12 @@ def pack_standard(evs):
             base["n"] = int(e["n"])
         elif ev == "ckpt_call":
             pack_ckpt_call(e, base)
+        elif ev == "resume_checked":
+            # the pool is usable after check_resume iff it was usable when the checkpoint was written
+            # (only judged when the latest checkpoint was restored)
+            known = last_ckpt_pool is not None and last_ckpt_pool[0] is not None and last_resume_latest
+            base["pool_eff_ok"] = bool(not known or bool(e["pool_eff"]) == bool(last_ckpt_pool[0]))
+            base["from_stale"] = bool(known and last_ckpt_pool[1])
         elif ev == "kill":
             pass
         elif ev == "exception":
